@@ -78,7 +78,10 @@ class Probes:
         def W():
             return any(e[0] in ('E', 'X', 'A') for e in log)
 
-        d = dict(E=E, X=X, A=A, G=G, K=K, T=T, H=H, W=W, S=S, U=self.U)
+        def U():                # (a plain function, not a bound method: copying the context must not copy the probes)
+            return self.U()
+
+        d = dict(E=E, X=X, A=A, G=G, K=K, T=T, H=H, W=W, S=S, U=U)
         d.update(extra)
         return d
 
